@@ -154,6 +154,45 @@ def gen_flags(g, count):
     return cases
 
 
+REG_SWITCHES = [('oldReg', True), ('template', 'left-aligned'), ('shorten', True), ('totalsOnly', True), ('noTotals', True), ('csv', True), ('groupFood', True),
+                ('singleElement', 'calories'), ('singleFood', 'a'), ('noColor', True)]
+BAL_SWITCHES = [('collapse', True), ('collapseLast', True), ('singleElement', 'calories')]        # (balance has no --no-color of its own)
+
+
+def gen_switches(g, nfiles):
+    """well-formed files, every pair of switches of register and balance (and a sample of triples): options that are harmless
+    one by one must be harmless together"""
+    import itertools
+    r = g.r
+    cases = []
+    for _ in range(nfiles):
+        book = g.book(depth=1, exact=True, unusual=0.1)
+        log = g.log(book=book, exact=True, unusual=0.1, days=r.randint(1, 3))
+        if r.random() < 0.5:
+            log.append((log[0][0], [], []))
+        files = base_files(g, book, log)
+        combos = [(['reg'], c) for c in itertools.combinations(REG_SWITCHES, 2)] + [(['bal'], c) for c in itertools.combinations(BAL_SWITCHES, 2)]
+        combos += [(['reg'], c) for c in r.sample(list(itertools.combinations(REG_SWITCHES, 3)), 25)] + [(['bal'], c) for c in itertools.combinations(BAL_SWITCHES, 3)]
+        for path, combo in combos:
+            c = app(path, files, s=dict(combo), kind='switches ' + ' '.join(path) + ' ' + '+'.join(k for k, _ in combo))
+            c.meta['style'] = 'switches'
+            cases.append(c)
+        # one global option with one or two switches of the sub-command
+        days = sorted({d for d, _, _ in log})
+        d1 = days[0].strftime('%Y/%m/%d')
+        d2 = days[-1].strftime('%Y/%m/%d')
+        globals_ = [('noDatabase', True), ('begin', d2), ('end', d1), ('maxdepth', 1), ('maxdepth', 2)]
+        subs = [(['reg'], c) for k in (1, 2) for c in itertools.combinations(REG_SWITCHES + [('begin', d1), ('end', d2)], k)]
+        subs += [(['bal'], c) for k in (1, 2) for c in itertools.combinations(BAL_SWITCHES + [('begin', d1), ('end', d2)], k)]
+        subs += [(['report', 'quantity'], (('desc', True),)), (['report', 'totals'], ()), (['report', 'unresolved'], ()), (['csv', 'log'], (('begin', d1),)), (['print'], (('end', d2),))]
+        for gopt in globals_:
+            for path, combo in (subs if gopt[0] != 'maxdepth' else r.sample(subs, 25)):
+                c = app(path, files, g=dict([gopt]), s=dict(combo), kind='switches %s + %s %s' % (gopt[0], ' '.join(path), '+'.join(k for k, _ in combo)))
+                c.meta['style'] = 'switches'
+                cases.append(c)
+    return cases
+
+
 def judge(ctx, cases, impl):
     for c in cases:
         i = impl[c.id]
@@ -167,6 +206,7 @@ def run(ctx):
     g = G(ctx.seed)
     cases = gen(g, 500 if ctx.tier == 'quick' else 2500, ctx.tier)
     cases += gen_flags(g, 720 if ctx.tier == 'quick' else 3000)
+    cases += gen_switches(g, 3 if ctx.tier == 'quick' else 12)
     # an unbounded --maxdepth on a cyclic book (recursion depth = maxdepth)
     deep = app(['csv', 'database-resolved'], {b'food.yaml': b'a:\n  a: 1\n', b'log.yaml': b''}, g={'maxdepth': 100000000}, kind='csv database-resolved maxdepth=1e8')
     deep.meta['style'] = 'deep'
